@@ -204,6 +204,53 @@ fn main() {
         }
     });
 
+    // dense, longer maps: a <= 2 object prefix (incl. a 5-span slider and gaps measured from the previous object's end)
+    // followed by a stream of circles, under every key mod. Pattern generators keep state (previous pattern, RNG seeded
+    // from the difficulty settings) along the map, which small maps never exercise; positions and difficulty presets vary
+    // because the generators' random rolls depend on them.
+    {
+        use vh::gen::{Alphabet, DiffPreset, MapSpec, END_REL};
+        let kinds = [Kind::Circle, Kind::Slider2, Kind::Slider5, Kind::Spinner(600)];
+        let alpha = Alphabet::product(&kinds, &[150, END_REL + 110, END_REL + 400], &[PosK::Far], &[0], &[0]);
+        let n_pref = alpha.count_upto(2);
+        let streams: Vec<(u32, u32)> = if rich { vec![(96, 62), (48, 125), (24, 250), (150, 40)] } else { vec![(96, 62), (48, 125)] };
+        let presets = [DiffPreset::D0, DiffPreset::D4, DiffPreset::D5, DiffPreset::D6, DiffPreset::D7, DiffPreset::D8, DiffPreset::D1, DiffPreset::D2];
+        let jitters: u64 = if rich { 12 } else { 5 };
+        let total = n_pref * streams.len() as u64 * presets.len() as u64 * jitters;
+        let name = format!("dense/osu/prefix<=2+stream/{}cases", total);
+        let all_keys: Vec<ModSpec> = key_mods(true);
+        let body = |idx: u64, l: &mut Local<'_>| {
+            let pi = idx % n_pref;
+            let mut r = idx / n_pref;
+            let stream = streams[(r % streams.len() as u64) as usize];
+            r /= streams.len() as u64;
+            let diff = presets[(r % presets.len() as u64) as usize];
+            let jitter = (r / presets.len() as u64) as u8;
+            let spec = MapSpec { diff, stream, jitter, ..MapSpec::new(0, alpha.seq(pi, 2)) };
+            if l.want_sample() {
+                let mut o = J::obj();
+                o.set("universe", J::s(l.universe));
+                o.set("index", J::i(idx));
+                o.set("map_spec", J::s(spec.describe()));
+                l.sample(o);
+            }
+            let text = spec.text();
+            let Ok(map) = Beatmap::from_bytes(text.as_bytes()) else { return };
+            if !battery::in_domain(&map) {
+                return;
+            }
+            l.nontrivial();
+            l.states(1);
+            let d = battery::run_conversions(&map, &all_keys, &|| l.heartbeat());
+            std::hint::black_box(d);
+            l.checked(1);
+            if l.ctx.replay.is_some() {
+                println!("--- case text ---\n{text}");
+            }
+        };
+        ctx.universe_isolated(&name, total, 5.0, 1024, body);
+    }
+
     // realistic domain under debug assertions + overflow checks
     let vdebug = PathBuf::from(std::env::var("VERIF_ROOT").unwrap_or_else(|_| "/verif".into())).join("target/vdebug/c05");
     ctx.set_worker_exe(Some(vdebug));
